@@ -1607,3 +1607,111 @@ func (c *Ctx) ruleOverlayBookkeeping() {
 			"TrieState.Delete(main key) goes through storageDiff.delete, which also drops childChangeSet[key] and sets the marker that the child readers and applyToTrie take for `child trie deleted`")
 	}
 }
+
+// R-MERGEONCE (C02): the merge of one branch is counted once.
+func (c *Ctx) ruleMergeOnce() {
+	c.doc("R-MERGEONCE", inmemDir+" deleteNodesLimit: inside the loop over a branch's children, the node counter incremented because handleDeletion merged THAT branch (a loop-invariant node) is incremented at most once per call — the increment cannot be reached twice, or it is guarded by a flag it sets: a merge counted on every later turn makes the ancestors' Descendants counters too small (they wrap below zero, and ClearPrefix takes `1 + Descendants == 0` for `nothing removed`)")
+	f := c.fn(inmemDir, "(*InMemoryTrie).deleteNodesLimit")
+	if f == nil {
+		c.unresolved("(*InMemoryTrie).deleteNodesLimit")
+		return
+	}
+	n := 0
+	eachInstr(f, func(_ *ssa.BasicBlock, _ int, in ssa.Instruction) {
+		call, ok := in.(*ssa.Call)
+		if !ok || call.Call.StaticCallee() == nil || call.Call.StaticCallee().Name() != "handleDeletion" {
+			return
+		}
+		// inside a loop, on a loop-invariant node?
+		var loop map[*ssa.BasicBlock]bool
+		for _, l := range loopsOf(f) {
+			if l[call.Block()] && (loop == nil || len(l) < len(loop)) {
+				loop = l
+			}
+		}
+		if loop == nil {
+			return
+		}
+		arg := call.Call.Args[1]
+		if ai, ok := arg.(ssa.Instruction); ok && loop[ai.Block()] {
+			return // a different node on every turn
+		}
+		var merged ssa.Value
+		for _, r := range *call.Referrers() {
+			if ex, ok := r.(*ssa.Extract); ok && ex.Index == 1 {
+				merged = ex
+			}
+		}
+		if merged == nil {
+			return
+		}
+		// increments guarded by the merged flag
+		for b := range loop {
+			if !guardedBy(b, func(cond ssa.Value, truth bool) bool { return cond == merged && truth }) {
+				continue
+			}
+			for _, ins := range b.Instrs {
+				bo, ok := ins.(*ssa.BinOp)
+				if !ok || bo.Op != token.ADD {
+					continue
+				}
+				if k, isC := constInt(bo.Y); !isC || k != 1 {
+					continue
+				}
+				n++
+				// (a) cannot run twice
+				again := false
+				seen := map[*ssa.BasicBlock]bool{}
+				stack := append([]*ssa.BasicBlock{}, b.Succs...)
+				for len(stack) > 0 {
+					x := stack[len(stack)-1]
+					stack = stack[:len(stack)-1]
+					if x == b {
+						again = true
+						break
+					}
+					if seen[x] {
+						continue
+					}
+					seen[x] = true
+					stack = append(stack, x.Succs...)
+				}
+				// (b) or guarded by a flag that this block sets
+				once := false
+				if again {
+					once = guardedBy(b, func(cond ssa.Value, truth bool) bool {
+						var flag *ssa.Phi
+						if u, ok := cond.(*ssa.UnOp); ok && u.Op == token.NOT && truth {
+							flag, _ = u.X.(*ssa.Phi)
+						} else if !truth {
+							flag, _ = cond.(*ssa.Phi)
+						}
+						if flag == nil {
+							return false
+						}
+						// the flag becomes true on the way out of this block
+						var setsTrue func(p *ssa.Phi, depth int) bool
+						setsTrue = func(p *ssa.Phi, depth int) bool {
+							for i, e := range p.Edges {
+								pred := p.Block().Preds[i]
+								if k, ok := e.(*ssa.Const); ok && k.Value != nil && k.Value.String() == "true" && (pred == b || b.Dominates(pred)) {
+									return true
+								}
+								if inner, ok := e.(*ssa.Phi); ok && depth < 3 && inner != p && setsTrue(inner, depth+1) {
+									return true
+								}
+							}
+							return false
+						}
+						return setsTrue(flag, 0)
+					})
+				}
+				c.ob("R-MERGEONCE", fmt.Sprintf("deleteNodesLimit:merge-counted-once#%d", n), bo.Pos(), !again || once,
+					"the counter incremented for the merge of the loop-invariant branch can be incremented again on a later turn of the loop")
+			}
+		}
+	})
+	if n == 0 {
+		c.unresolved("the merge counter of deleteNodesLimit")
+	}
+}
